@@ -315,6 +315,9 @@ func streamC18(c *Ctx) {
 			c.Sample(line)
 		}
 	}
+	if !c18SameNamedTypes(c, g) {
+		return
+	}
 	if !c18Rename(c, dr, g) {
 		return
 	}
@@ -791,4 +794,68 @@ func c18Paths(c *Ctx, dr *Driver, g *Gen) bool {
 		}
 	}
 	return !modelOff
+}
+
+// ---- distinct struct types that share their package path and name (local types of different functions) ----
+//
+// Anything that remembers a struct type's fields under a key built from its name confuses them.
+
+func sameNameA(i int) (interface{}, map[string]interface{}) {
+	type record struct {
+		Name string `clover:"name"`
+		Age  int    `clover:"age,omitempty"`
+	}
+	return record{Name: "ann", Age: i}, map[string]interface{}{"name": "ann", "age": int64(i)}
+}
+
+func sameNameB(i int) (interface{}, map[string]interface{}) {
+	type record struct {
+		Title string `clover:"title"`
+	}
+	return record{Title: fmt.Sprint("t", i)}, map[string]interface{}{"title": fmt.Sprint("t", i)}
+}
+
+func sameNameC(i int) (interface{}, map[string]interface{}) {
+	type record struct {
+		Name  string
+		Age   int `clover:"years"`
+		Extra bool
+		skip  int
+	}
+	return &record{Name: "c", Age: i, Extra: true, skip: 1}, map[string]interface{}{"Name": "c", "years": int64(i), "Extra": true}
+}
+
+func sameNameD(i int) (interface{}, map[string]interface{}) {
+	type record struct {
+		Age  uint8  `clover:"name"` // the same stored names as A, other types and order
+		Name string `clover:"age"`
+	}
+	return record{Age: uint8(i), Name: "d"}, map[string]interface{}{"name": uint64(uint8(i)), "age": "d"}
+}
+
+func c18SameNamedTypes(c *Ctx, g *Gen) bool {
+	makers := []func(int) (interface{}, map[string]interface{}){sameNameA, sameNameB, sameNameC, sameNameD}
+	for i := 1; i <= c.N(400, 4000); i++ {
+		k := g.pick(len(makers))
+		v, want := makers[k](i)
+		if k == 0 && i%7 == 0 {
+			v, want = makers[0](0) // omitempty drops the zero Age
+			delete(want, "age")
+		}
+		c.Evals++
+		res, err, pan := safeNormalize(v)
+		got, _ := res.(map[string]interface{})
+		if pan != "" || err != nil || got == nil || canonDoc(got) != canonDoc(want) {
+			c.Violation(&Replay{Stream: "norm", Case: []interface{}{J{"k": "same-named-types", "type": fmt.Sprintf("%T", v), "variant": k, "i": i}}, Expected: []string{canonDoc(want)},
+				Actual: []string{canonDoc(got), fmt.Sprint(err), pan}, Note: "a struct is not normalised by its own fields and tags (another struct type with the same package and name was converted before)"})
+			return false
+		}
+		doc := d.NewDocumentOf(v)
+		if doc == nil || canonDoc(doc.AsMap()) != canonDoc(want) {
+			c.Violation(&Replay{Stream: "norm", Case: []interface{}{J{"k": "same-named-types", "variant": k, "i": i}}, Expected: []string{canonDoc(want)}, Note: "NewDocumentOf of a struct does not follow the struct's own tags"})
+			return false
+		}
+		c.Count("same-named-type")
+	}
+	return true
 }
